@@ -94,7 +94,11 @@ def gram (Z0 : Mat) (hist : List Vec) : Mat := hist.foldl addOuter Z0
 
 structure Agent where
   sem      : Sem
+  /-- `agent.lamb` as it is *now*: an ordinary attribute, changed by an RL-hyper-parameter mutation
+      (`hp_config` may list it) or by plain assignment; read by the next `init_params` only -/
   lamb     : Rat
+  /-- ghost: the value `lamb` had when `sigma_inv` was last initialised (the λ of the property) -/
+  lamb0    : Rat
   /-- number of trainable parameters of the *current* output layer of `agent.actor` -/
   outNumel : Nat
   /-- `agent.numel` -/
@@ -107,11 +111,11 @@ deriving Repr, DecidableEq
 
 /-- `init_params` (constructor and mutation hook): re-reads the output layer, resets the matrix -/
 def Agent.initParams (a : Agent) : Agent :=
-  { a with numel := a.outNumel, sigmaInv := sigma0 a.sem a.lamb a.outNumel, hist := [] }
+  { a with lamb0 := a.lamb, numel := a.outNumel, sigmaInv := sigma0 a.sem a.lamb a.outNumel, hist := [] }
 
 /-- `NeuralUCB(...)` / `NeuralTS(...)` with an output layer of `n` parameters -/
 def Agent.mk0 (sem : Sem) (lamb : Rat) (n : Nat) : Agent :=
-  Agent.initParams { sem := sem, lamb := lamb, outNumel := n, numel := 0, sigmaInv := [], hist := [] }
+  Agent.initParams { sem := sem, lamb := lamb, lamb0 := lamb, outNumel := n, numel := 0, sigmaInv := [], hist := [] }
 
 /-- `get_action` can run: the gradient of the output layer (`g.length = outNumel` entries) fits the
     `numel` columns the code allocates (`g[k] = torch.cat(...)` raises otherwise) -/
@@ -123,6 +127,15 @@ def Agent.update (a : Agent) (g : Vec) : Agent :=
 
 /-- `learn`: weights change, the matrix and all sizes stay -/
 def Agent.learn (a : Agent) : Agent := a
+
+/-- `agent.test(env)` / `set_training_mode(flag)`: a fitness evaluation runs the network greedily without
+    `get_action`, and the training flag is no part of the property — every later decision returned by
+    `get_action` still counts.  The matrix, the sizes and the history stay. -/
+def Agent.evaluate (a : Agent) : Agent := a
+
+/-- `agent.lamb = q` (RL-hyper-parameter mutation or assignment), `q > 0`: only the attribute changes;
+    the matrix keeps the regulariser it was initialised with until the next `init_params` -/
+def Agent.setLamb (a : Agent) (q : Rat) : Agent := if 0 < q then { a with lamb := q } else a
 
 /-- the raw effect of an architecture mutation on the network: a new output layer with `n'`
     parameters (`n' = outNumel` for mutations that keep it) — *before* the hook has run -/
@@ -136,7 +149,7 @@ def Agent.mutate (a : Agent) (n' : Nat) : Agent := (a.setArch n').initParams
     `copy_attributes` copies `numel`, `sigma_inv` (and every other plain attribute) from the parent -/
 def Agent.clone (a : Agent) : Agent :=
   let c := (Agent.mk0 a.sem a.lamb a.outNumel)
-  { c with numel := a.numel, sigmaInv := a.sigmaInv, hist := a.hist }
+  { c with lamb0 := a.lamb0, numel := a.numel, sigmaInv := a.sigmaInv, hist := a.hist }
 
 /-- `target.load_checkpoint(path)` where `path` holds `saved` (also the core of the classmethod
     `load`, whose `target` is a freshly constructed agent): the networks of `target` are replaced by
@@ -145,7 +158,8 @@ def Agent.clone (a : Agent) : Agent :=
     is restored -/
 def Agent.loadFrom (target saved : Agent) : Agent :=
   let c := (target.setArch saved.outNumel).initParams
-  { c with lamb := saved.lamb, numel := saved.numel, sigmaInv := saved.sigmaInv, hist := saved.hist }
+  { c with lamb := saved.lamb, lamb0 := saved.lamb0, numel := saved.numel, sigmaInv := saved.sigmaInv,
+           hist := saved.hist }
 
 /-- `save_checkpoint` + `load` (round trip through a fresh agent of the same class) -/
 def Agent.reload (a : Agent) : Agent :=
@@ -157,6 +171,9 @@ inductive Op where
   | mutate (n' : Nat)
   | clone
   | reload
+  | init                 -- explicit `agent.init_params()`
+  | setLamb (q : Rat)
+  | evaluate             -- `agent.test(env)` / `set_training_mode`
 deriving Repr, DecidableEq
 
 def Agent.step (a : Agent) : Op → Agent
@@ -165,11 +182,14 @@ def Agent.step (a : Agent) : Op → Agent
   | .mutate n' => a.mutate n'
   | .clone => a.clone
   | .reload => a.reload
+  | .init => a.initParams
+  | .setLamb q => a.setLamb q
+  | .evaluate => a.evaluate
 
 def Agent.run (a : Agent) (ops : List Op) : Agent := ops.foldl Agent.step a
 
-/-- `Z₀ + Σ g gᵀ` since the last initialisation -/
-def Agent.gram (a : Agent) : Mat := Bandit.gram (z0 a.sem a.lamb a.numel) a.hist
+/-- `Z₀ + Σ g gᵀ` since the last initialisation, `Z₀` built from the `lamb` of that initialisation -/
+def Agent.gram (a : Agent) : Mat := Bandit.gram (z0 a.sem a.lamb0 a.numel) a.hist
 
 end Bandit
 
@@ -180,6 +200,9 @@ end Bandit
                                               | singular (denominator 0; unreachable for lamb > 0)
     bandit bonus <g…>                       → gᵀ S g as an exact rational | reject
     bandit learn                            → ok
+    bandit eval                             agent.test(env) / set_training_mode: nothing changes → ok
+    bandit setlamb <q>                      agent.lamb = q (→ ok | reject when q ≤ 0); used by the next init only
+    bandit lamb                             → "<lamb now> <lamb of the last initialisation>"
     bandit arch <n'>                        raw architecture change, hook NOT run → ok
     bandit hook                             init_params → ok
     bandit mutate <n'>                      arch + hook → ok
@@ -240,6 +263,12 @@ def step (s : IOState) : List String → IOState × String
         | some g => if g.length = a.numel then (s, showRat (bonus a.sigmaInv g)) else (s, "reject")
         | none => (s, "bad-op")
       | "learn", [] => ({ s with agent := some a.learn }, "ok")
+      | "eval", [] => ({ s with agent := some a.evaluate }, "ok")
+      | "setlamb", [q] =>
+        match parseRat? q with
+        | some q => if q ≤ 0 then (s, "reject") else ({ s with agent := some (a.setLamb q) }, "ok")
+        | none => (s, "bad-op")
+      | "lamb", [] => (s, showRat a.lamb ++ " " ++ showRat a.lamb0)
       | "arch", [n] =>
         match parseNat? n with
         | some n => ({ s with agent := some (a.setArch n) }, "ok")
